@@ -27,7 +27,7 @@ def Rc : List (Line V) := s.rows.flatMap (entityLines wv)
 
 theorem render_eq : renderSec wc wv s = Cc wc s ++ (NMc s ++ Rc wv s) := by simp [renderSec, Cc, NMc, Rc]
 
-theorem C_noname (hwc : 1 ≤ wc) : ∀ c ∈ Cc wc s, isName c = false ∧ hasVal c = false := by
+theorem C_noname (eNot : V → Bool) (hwc : 1 ≤ wc) : ∀ c ∈ Cc wc s, isName c = false ∧ hasVal eNot c = false := by
   intro c hc
   obtain ⟨hne, hmem⟩ := chunks_mem wc hwc _ c hc
   constructor
@@ -67,8 +67,9 @@ theorem R_head (hr : s.rows ≠ []) : ∃ b, (Rc wv s).head? = some b ∧ isName
   | cons r t => exact ⟨[Tok.n r.1], by simp [Rc, hs, entityLines], rfl⟩
 
 /-- the last line of the data part carries a value -/
-theorem R_last (hwv : 1 ≤ wv) (hr : s.rows ≠ []) (hw : ∀ r ∈ s.rows, r.2 ≠ []) :
-    ∃ b, (Rc wv s).getLast? = some b ∧ hasVal b = true := by
+theorem R_last (eNot : V → Bool) (hwv : 1 ≤ wv) (hr : s.rows ≠ []) (hw : ∀ r ∈ s.rows, r.2 ≠ [])
+    (he : ∀ r ∈ s.rows, ∀ x ∈ r.2, eNot x = true) :
+    ∃ b, (Rc wv s).getLast? = some b ∧ hasVal eNot b = true := by
   obtain ⟨init, rl, hrl⟩ : ∃ init rl, s.rows = init ++ [rl] := ⟨s.rows.dropLast, s.rows.getLast hr, (List.dropLast_concat_getLast hr).symm⟩
   have hrlmem : rl ∈ s.rows := by rw [hrl]; simp
   have hvals : rl.2 ≠ [] := hw rl hrlmem
@@ -88,8 +89,8 @@ theorem R_last (hwv : 1 ≤ wv) (hr : s.rows ≠ []) (hw : ∀ r ∈ s.rows, r.2
     | cons t ts =>
       have := hmem t (by rw [hc]; simp)
       simp only [List.mem_map] at this
-      obtain ⟨x, _, rfl⟩ := this
-      simp [hasVal, isVal]
+      obtain ⟨x, hx, rfl⟩ := this
+      simp [hasVal, isVal, he rl hrlmem x hx]
 end Lines
 
 /-! ### `_split_series` -/
@@ -110,8 +111,10 @@ theorem findFrom_none (p : Line V → Bool) (pre A : List (Line V)) (hA : ∀ a 
 
 /-- **C02_split_point**: the nodal/elemental boundary found by walking back from the second cluster of
     name lines is exactly the end of the nodal section; with no elemental section everything is nodal. -/
-theorem split_two (wc wv wc' wv' : Nat) (sN sE : Sec V) (hN : WFSec' wc wv sN) (hE : WFSec' wc' wv' sE) :
-    splitSeries (renderSec wc wv sN ++ renderSec wc' wv' sE) = (renderSec wc wv sN, some (renderSec wc' wv' sE)) := by
+theorem split_two (eNot : V → Bool) (wc wv wc' wv' : Nat) (sN sE : Sec V) (hN : WFSec' wc wv sN) (hE : WFSec' wc' wv' sE)
+    (he : ∀ r ∈ sN.rows, ∀ x ∈ r.2, eNot x = true) :
+    splitSeries eNot (renderSec wc wv sN ++ renderSec wc' wv' sE)
+      = some (renderSec wc wv sN, some (renderSec wc' wv' sE)) := by
   set C := Cc wc sN; set NM := NMc sN; set R := Rc wv sN
   set C' := Cc wc' sE; set NM' := NMc sE; set R' := Rc wv' sE
   have hSN : renderSec wc wv sN = C ++ (NM ++ R) := render_eq wc wv sN
@@ -136,7 +139,7 @@ theorem split_two (wc wv wc' wv' : Nat) (sN sE : Sec V) (hN : WFSec' wc wv sN) (
   -- a : first name line
   have ha : findFrom isName ls 0 = some C.length := by
     have := findFrom_spec isName [] C (NM ++ (R ++ (C' ++ (NM' ++ R')))) nm0
-      (fun a h => (C_noname wc sN hN.wc a h).1) (by simp [List.head?_append, hnm0]) hnm0n
+      (fun a h => (C_noname wc sN eNot hN.wc a h).1) (by simp [List.head?_append, hnm0]) hnm0n
     simpa [hfile] using this
   -- b : end of the first cluster
   have htw : ((ls.drop C.length).takeWhile isName) = NM := by
@@ -155,20 +158,20 @@ theorem split_two (wc wv wc' wv' : Nat) (sN sE : Sec V) (hN : WFSec' wc wv sN) (
       intro a h
       rcases List.mem_append.mp h with h | h
       · exact R_noname wv sN hN.wv a h
-      · exact (C_noname wc' sE hE.wc a h).1
+      · exact (C_noname wc' sE eNot hE.wc a h).1
     have := findFrom_spec isName (C ++ NM) (R ++ C') (NM' ++ R') nm0' hA (by simp [List.head?_append, hnm0']) hnm0n'
     simpa [hfile, List.append_assoc] using this
   -- walk back
-  obtain ⟨rl, hrl, hrlv⟩ := R_last wv sN hN.wv hN.rows_ne hN.vals_ne
-  have hback : (((ls.take (C.length + NM.length + (R.length + C'.length))).reverse.takeWhile fun l => !hasVal l)).length = C'.length := by
+  obtain ⟨rl, hrl, hrlv⟩ := R_last wv sN eNot hN.wv hN.rows_ne hN.vals_ne he
+  have hback : (((ls.take (C.length + NM.length + (R.length + C'.length))).reverse.takeWhile fun l => !hasVal eNot l)).length = C'.length := by
     have htake : ls.take (C.length + NM.length + (R.length + C'.length)) = (C ++ (NM ++ R)) ++ C' := by
       rw [hfile]
       have : C ++ (NM ++ (R ++ (C' ++ (NM' ++ R')))) = ((C ++ (NM ++ R)) ++ C') ++ (NM' ++ R') := by simp
       rw [this, List.take_left' (by simp; omega)]
     rw [htake, List.reverse_append]
-    have : (C'.reverse ++ (C ++ (NM ++ R)).reverse).takeWhile (fun l => !hasVal l) = C'.reverse := by
+    have : (C'.reverse ++ (C ++ (NM ++ R)).reverse).takeWhile (fun l => !hasVal eNot l) = C'.reverse := by
       apply takeWhile_append_stop
-      · intro a h; simp [(C_noname wc' sE hE.wc a (List.mem_reverse.mp h)).2]
+      · intro a h; simp [(C_noname wc' sE eNot hE.wc a (List.mem_reverse.mp h)).2]
       · intro b hb
         rw [List.head?_reverse] at hb
         have : (C ++ (NM ++ R)).getLast? = some rl := by
@@ -176,11 +179,42 @@ theorem split_two (wc wv wc' wv' : Nat) (sN sE : Sec V) (hN : WFSec' wc wv sN) (
           rw [List.getLast?_append, List.getLast?_append, hrl']; rfl
         rw [this] at hb; cases hb; simp [hrlv]
     rw [this]; simp
+  have hNMpos : 1 ≤ NM.length := List.length_pos_iff.mpr hNMne
   unfold splitSeries
   rw [ha]; simp only [htw, hc, hback]
+  rw [if_neg (by omega)]
   have hstart : C.length + NM.length + (R.length + C'.length) - C'.length = (C ++ (NM ++ R)).length := by simp; omega
   rw [hstart, hSN, hSE]
   have hsplit : ls = (C ++ (NM ++ R)) ++ (C' ++ (NM' ++ R')) := by rw [hfile]; simp
   rw [hsplit, List.take_left, List.drop_left]
 
-#print axioms split_two
+
+/-- with no elemental section (a single cluster of name lines) everything is nodal -/
+theorem split_one (eNot : V → Bool) (wc wv : Nat) (sN : Sec V) (hN : WFSec wc wv sN) :
+    splitSeries eNot (renderSec wc wv sN) = some (renderSec wc wv sN, none) := by
+  set C := Cc wc sN; set NM := NMc sN; set R := Rc wv sN
+  have hSN : renderSec wc wv sN = C ++ (NM ++ R) := render_eq wc wv sN
+  have hNMne : NM ≠ [] := by
+    simp only [NM, NMc, ne_eq, List.map_eq_nil_iff]; exact hN.vars_ne
+  obtain ⟨nm0, hnm0⟩ : ∃ b, NM.head? = some b := by
+    cases h : NM with
+    | nil => exact absurd h hNMne
+    | cons x t => exact ⟨x, rfl⟩
+  have hnm0n : isName nm0 = true := NM_names sN nm0 (List.mem_of_mem_head? hnm0)
+  obtain ⟨r0, hr0, hr0n⟩ := R_head wv sN hN.rows_ne
+  have ha : findFrom isName (C ++ (NM ++ R)) 0 = some C.length := by
+    have := findFrom_spec isName [] C (NM ++ R) nm0
+      (fun a h => (C_noname wc sN eNot hN.wc a h).1) (by simp [List.head?_append, hnm0]) hnm0n
+    simpa using this
+  have htw : (((C ++ (NM ++ R)).drop C.length).takeWhile isName) = NM := by
+    rw [List.drop_left]
+    apply takeWhile_append_stop isName NM _ (NM_names sN)
+    intro b hb
+    rw [show Rc wv sN = R from rfl] at hr0
+    rw [hr0] at hb; cases hb; exact hr0n
+  have hc : findFrom isName (C ++ (NM ++ R)) (C.length + NM.length) = none := by
+    have := findFrom_none isName (C ++ NM) R (R_noname wv sN hN.wv)
+    simpa [List.append_assoc] using this
+  rw [hSN]
+  unfold splitSeries
+  rw [ha]; simp only [htw, hc]
